@@ -23,6 +23,13 @@ HAND = [
     ("#[::entrait::entrait(ref)]", "#[async_trait::async_trait]\nimpl RImpl for X { async fn m<D: Sync>(d: &D, _: u8) -> u8 { 0 } }"),
     ("#[::entrait::entrait(pub T)]", "fn conc(deps: &crate::Wr, _: u8, _: u8) -> u8 { 0 }"),
     ("#[::entrait::entrait_export(pub T, mock_api=Api)]", "fn exported(deps: &(impl Sync + Send), a: u8, _: u8) -> u8 { a }"),
+    # every delegation kind of trait mode (also the deprecated one), options that are rarely written out
+    ("#[::entrait::entrait(delegate_by = Borrow)]", "pub trait Bo: 'static { fn m(&self, a: u8) -> u8; }"),
+    ("#[::entrait::entrait(BoImpl, delegate_by = Borrow)]", "pub trait BoT { fn m(&self, a: u8) -> u8; }"),
+    ("#[::entrait::entrait(delegate_by = Self)]", "pub trait SelfT { fn m(&self, (a, b): (u8, u8)) -> u8; }"),
+    ("#[::entrait::entrait(mockall, ?Send)]", "pub trait NoSendT { async fn m(&self, a: u8) -> u8; async fn unit(&self); }"),
+    ("#[::entrait::entrait(pub T, export = false, mockall, debug = false)]", "fn explicit<D>(deps: &D, a: u8) -> u8 { a }"),
+    ("#[::entrait::entrait(dyn)]", "impl RImpl for X { fn m<D: Sync>(d: &D, _: u8) -> u8 { 0 } }"),
 ]
 
 
